@@ -20,6 +20,8 @@ R3  identities: sulfur atoms conserved (EI_SO2/MW_SO2 + EI_SO4/MW_SO4 ≡
 R4  thrust categories are total and single-valued: np.select with two
     conditions on the same array against the two mid-points of consecutive
     calibration modes, and a default; ascending in fuel flow.
+R6  per-mode values become arrays (and back) in the order of the ThrustMode
+    enumeration, never in dict insertion order.
 R5  HC/CO clamping rules are applied in the documented order (a) (b) (c).
 
 Not decided: MEEM, the HC/CO bilinear fit's numerical behaviour, anything
@@ -79,6 +81,27 @@ def rule_isa(ctx):
             ok = consts[k] == v
             ctx.ob('C12-R1', (cm.relpath if k in module_constants(cm) else m.relpath, '<module>'), f'{k} = {float(consts[k])}', ok,
                    'ISA / BADA value' if ok else f'{k} differs from the standard atmosphere value {float(v)}', nontrivial=False)
+    # results are real-valued whatever the dtype of the altitude / pressure passed in: no result array may be
+    # allocated "like" an argument (np.full_like / zeros_like / empty_like / ones_like inherit an integer dtype and
+    # truncate the kelvins and pascals stored into them)
+    ctl = ast.parse('np.full_like(altitude, T)').body[0].value
+    ctx.control('C12-R1', call_name(ctl).split('.')[-1].endswith('_like') and not any(k.arg == 'dtype' for k in ctl.keywords),
+                'embedded np.full_like(altitude, T) is recognised as dtype-inheriting')
+    for fi in m.functions.values():
+        from .own import alias_of
+        aliases = {p_: p_ for p_ in fi.params}
+        for t, st, how in stores_to(fi.node):
+            if isinstance(t, ast.Name) and getattr(st, 'value', None) is not None:
+                r = alias_of(st.value, aliases)
+                if r:
+                    aliases[t.id] = r
+        for c in calls_in(fi.node):
+            if call_name(c).split('.')[-1] in ('full_like', 'zeros_like', 'empty_like', 'ones_like') and c.args \
+                    and alias_of(c.args[0], aliases) and not any(k.arg == 'dtype' for k in c.keywords):
+                ctx.ob('C12-R1', fi, f'{norm(c)[:60]}', False,
+                       (f'the result array takes the dtype of `{norm(c.args[0])}`: for an integer altitude (or pressure) the '
+                        'temperatures / pressures written into it are truncated to whole numbers (228.7 K → 228 K), and everything '
+                        'derived from them (pressure level, density, speed of sound) is off by a per cent or two'), line=c.lineno)
     tf = m.func('temperature_at_altitude_isa_bada4')
     w = _where(tf, 'temperature')
     if w is None:
@@ -420,8 +443,46 @@ def rule_pm(ctx):
     ctx.ob('C12-R1', sc, 'EI = k_slm·C_BC·Q, mg→g', ok, 'CI_best * Q / 1000' if ok else 'SCOPE11 assembly changed')
 
 
+def rule_mode_layout(ctx):
+    """R6: per-mode values cross between "keyed by mode" and "position in an array" in ThrustModeValues; the EI
+    routines pair such arrays position by position (fuel flow i with EI i).  Every such crossing must use the order
+    of the ThrustMode enumeration itself, never the insertion order of the underlying dict."""
+    cls = ctx.prog.cls('performance/types.py', 'ThrustModeValues')
+    aa = cls.methods.get('as_array')
+    if aa is None:
+        ctx.undecided('C12-R6', (cls.file, cls.name), 'as_array', 'method not found')
+    rets = [r.value for r in walk_no_nested(aa.node) if isinstance(r, ast.Return) and r.value is not None]
+    ctx.floor('C12-R6', len(rets), 1, 'returns of ThrustModeValues.as_array')
+    for rv in rets:
+        comps = [x for x in ast.walk(rv) if isinstance(x, (ast.ListComp, ast.GeneratorExp))]
+        dict_order = [x for x in ast.walk(rv) if isinstance(x, ast.Call) and isinstance(x.func, ast.Attribute)
+                      and x.func.attr in ('values', 'items', 'keys') and 'self' in norm(x.func.value)]
+        dict_order += [x for x in ast.walk(rv) if isinstance(x, ast.comprehension) and norm(x.iter) in ('self', 'self._data')]
+        ok = len(comps) == 1 and len(comps[0].generators) == 1 and norm(comps[0].generators[0].iter) == 'ThrustMode' \
+            and not comps[0].generators[0].ifs and norm(comps[0].elt) in (f'self._data[{norm(comps[0].generators[0].target)}]',
+                                                                         f'self[{norm(comps[0].generators[0].target)}]') \
+            and not dict_order
+        ctx.ob('C12-R6', aa, f'as_array = {norm(rv)[:70]}', ok,
+               'one element per member of ThrustMode, in the enumeration\'s order' if ok else
+               ('the array follows the insertion order of the underlying dict, not the order of ThrustMode: two value sets with '
+                'equal contents built in different key orders give different arrays, and BFFM2 / MEEM pair fuel flows with '
+                'emission indices of other modes'), line=rv.lineno)
+    ini = cls.methods.get('__init__')
+    n = 0
+    for st in ast.walk(ini.node):
+        if isinstance(st, ast.DictComp) and any('args[' in norm(x) for x in ast.walk(st.value)):
+            n += 1
+            g0 = st.generators[0]
+            ok = norm(g0.iter) == 'enumerate(ThrustMode)' or norm(g0.iter) == 'ThrustMode'
+            ctx.ob('C12-R6', ini, f'positional constructor: {norm(st)[:60]}', ok,
+                   'position i is the i-th member of ThrustMode' if ok else 'positional data are not assigned in enumeration order',
+                   line=st.lineno, nontrivial=False)
+    ctx.floor('C12-R6/init', n, 2, 'positional constructors of ThrustModeValues')
+
+
 def run(ctx):
     rule_isa(ctx)
+    rule_mode_layout(ctx)
     rule_ffm2(ctx)
     rule_bffm2(ctx)
     rule_hcco(ctx)
